@@ -517,7 +517,10 @@ UNITS.append(Unit("cfgmap.add", "mcadd.c", enforce="manage_config_add", lifts={"
     r"void manage_config::add\(std::vector<std::string> const& cfg\)", rules=[
         Sub(r"^\{", "{ bool vx_has0 = self->has_k; int vx_val0 = self->val_k;", 1),
         Sub(r"for \(std::string const& (\w+) : (\w+)\)\s*\{",
-            r"for (size_t vx_it = 0; vx_it != \2->size; ++vx_it) { struct entry const *\1 = cfg_at(\2, vx_it);", 1),
+            r"for (size_t vx_it = 0; vx_it != \2->size; ++vx_it) { struct entry const *\1 = cfg_at(\2, vx_it);", None),
+        # the same loop written with iterators: for (auto it = cfg.begin(); it != cfg.end(); ++it) { std::string const& s = *it;
+        Sub(r"for \((?:auto|std::vector<std::string>::const_iterator) (\w+) = (\w+)\.c?begin\(\); \1 != \2\.c?end\(\); \+\+\1\)\s*\{\s*std::string const& (\w+) = \*\1;",
+            r"for (size_t vx_it = 0; vx_it != \2->size; ++vx_it) { struct entry const *\3 = cfg_at(\2, vx_it);", None),
         Sub(r"std::string::size_type (\w+) = (\w+)\.find_first_of\('='\);", r"size_t \1 = str_find_eq(\2);", None),
         Sub(r"std::string (\w+)\(trim_whitespace\((\w+)\.substr\(0, (\w+)\)\)\);", r"struct sstr \1 = trim_key(str_key_part(\2, \3));", None),
         Sub(r"std::string (\w+)\(trim_whitespace\((\w+)\.substr\((\w+) \+ 1\)\)\);", r"int \1 = trim_val(str_value_part(\2, \3 + 1));", None),
